@@ -219,6 +219,19 @@ def lock_after_backsig(ctx, P, sub):
     locks = call_blocks(b, r'SecretSubkey::set_password(_with_s2k)?$')
     signs = b.calls(r'SecretSubkey::sign_primary_key_binding$')
     ctx.check(P + ':backsig:lock-site', 'R-seq', 'the per-subkey closure locks the subkey when a passphrase was requested', bool(locks), function=b.path)
+    # each key is locked with the passphrase requested FOR IT: the subkey closure passes SubkeyParams.passphrase, the primary
+    # SecretKeyParams.passphrase
+    for l in locks:
+        pw = b.operand_origins(b.blocks[l]['t']['args'][1])
+        ctx.check(P + ':lock:subkey-own-passphrase', 'origin', 'the subkey is locked with the passphrase requested for this subkey (SubkeyParams.passphrase)',
+                  has_origin(pw, r'field:SubkeyParams\.passphrase$'), function=b.path, site=site(b, l),
+                  missing=None if has_origin(pw, r'field:SubkeyParams\.passphrase$') else 'password operand derives from %s' % sorted(x for x in pw if x.startswith(('field:', 'param:')))[:4])
+    gb = ctx.body(GEN)
+    if gb is not None:
+        for i, t in gb.calls(r'SecretKey::set_password(_with_s2k)?$'):
+            pw = gb.operand_origins(t['args'][1])
+            ctx.check(P + ':lock:primary-own-passphrase', 'origin', 'the primary key is locked with SecretKeyParams.passphrase', has_origin(pw, r'field:SecretKeyParams\.passphrase$'),
+                      function=gb.path, site=site(gb, i))
     for i, t in signs:
         after_lock = any(b.find_path(b.blocks[l]['t']['t'], {i}) is not None for l in locks)
         pw = b.operand_origins(t['args'][-1])
